@@ -149,6 +149,7 @@ struct calllog {
         int handler_calls, var_calls, locks, unlocks, lock_failed, unlock_failed;
         int nonquiet;     /* a handler/var choice other than index 0 was taken */
         int nested_lock_refused;
+        int ok_state_changed;  /* after OK, a call without new stimulus was silent and returned OK again but changed parser state */
         int io_triggered;      /* the io read callback raised an event during this call (new stimulus from inside the call) */
         int out_n; uint8_t out[64];
         int in_n; uint8_t in[8];
